@@ -70,6 +70,18 @@ def updateBest (wrap : Bool) (st : Strategy) (cs : List Conn) (prev : Option Con
       | none => prev
     | .other => prev
 
+/-- the `switch p.strategy` of `updateBest` given the maximum computed by the first loop: the member to switch to,
+`none` when there is no candidate (or the strategy is unknown) -/
+def selectWith (wrap : Bool) (st : Strategy) (m : BitVec 32) (cs : List Conn) : Option Conn :=
+  match st with
+  | .bestPing => findBestPing wrap m cs
+  | .firstWorking => findFirstWorking wrap m cs
+  | .other => none
+
+/-- the maximum loop over a list of heads already read -/
+def maxOfSeqs (l : List (BitVec 32)) : BitVec 32 :=
+  l.foldl (fun m x => if m < x then x else m) 0
+
 /-! ### The property's rule, stated directly (specification) -/
 
 /-- `c` is at most one masterchain block behind the newest head known to the pool (in ℕ, no wrap-around) -/
